@@ -294,6 +294,13 @@ def case_cpu(psutil, case):
         got = outcome(psutil.boot_time)
         if got != ("ok", float(case[2])):
             bad.append(("boot_time", "%r expected %r" % (got, case[2])))
+    elif k == "btime-seq":
+        # one long-lived interpreter while the published boot time changes (clock steps): every call reports the table as it is NOW
+        for step, b in enumerate(case[2]):
+            w.btime = b
+            got = outcome(psutil.boot_time)
+            if got != ("ok", float(b)):
+                bad.append(("boot_time:after-earlier-calls", "call %d of %r -> %r expected %r" % (step, case[2], got, b)))
     elif k == "freq-cpuinfo":
         mhz = case[2]
         w.set_file("/proc/cpuinfo", b"".join(b"processor\t: %d\ncpu MHz\t\t: %s\n\n" % (i, ("%.3f" % m).encode()) for i, m in enumerate(mhz)))
@@ -445,6 +452,11 @@ def build_cases(thorough):
         cases.append(("cpu", "stats", 3, 4, v))
     for b in (0, 1, 1700000000, 2 ** 31, 2 ** 32 + 5):
         cases.append(("cpu", "btime", b))
+    offs = (0, 1, -1, 2, -2, 3600)
+    for a in offs:
+        for b in offs:
+            for c in offs:
+                cases.append(("cpu", "btime-seq", [1700000000 + a, 1700000000 + b, 1700000000 + c]))
     for mhz in ([], [1000.0], [1000.0, 3000.5], [800.0, 900.0, 4000.25, 0.0]):
         cases.append(("cpu", "freq-cpuinfo", mhz))
     return cases
